@@ -370,9 +370,34 @@ theorem uncommitted_events_bounded (c : Cfg) (ops : List Op) (s : State) (hr : R
   have h2 := (in_flight_bounded c ops s hr).2
   exact Nat.le_trans h1 (Nat.mul_le_mul_right _ h2)
 
+/-- **add_blocks_only_when_all_in_flight.** Back-pressure is exact: an `Add` that finds `b.mu` free
+    is disabled (blocks in `getBatch`) only when all `Workers` batches are sealed and uncommitted. -/
+theorem add_blocks_only_when_all_in_flight (c : Cfg) (ops : List Op) (s : State) (hr : Run c ops s)
+    (e : Ev) (t0 now : Nat) (hl : s.locked = false) (hb : step? c s (.add e t0 now) = none) :
+    s.cur = none ∧ s.free = 0 ∧ s.full.length = c.workers := by
+  have h := reachable_pool c s (run_reachable hr)
+  unfold PoolInv curCount at h
+  simp only [step?, hl, Bool.false_eq_true, if_false] at hb
+  split at hb; · simp at hb
+  split at hb
+  · rename_i hg
+    unfold getBatch at hg
+    cases hc : s.cur with
+    | some b0 => simp [hc] at hg
+    | none =>
+      simp only [hc] at hg
+      split at hg
+      · rename_i hf; simp [hc, hf] at h; exact ⟨rfl, hf, h⟩
+      · simp at hg
+  · simp at hb
+
 example : ∃ s, Run cfg2 [.add e1 0 0, .add e2 1 1, .sealB, .add e3 2 2, .add e4 3 3] s ∧
     s.free = 0 ∧ s.cur.isSome ∧ s.full.length = 1 ∧ (step? cfg2 s .sealB).isSome :=
   ⟨_, rfl, by decide, by decide, by decide, by decide⟩
+
+example : ∃ s, Run cfg2 [.add e1 0 0, .add e2 1 1, .sealB, .add e3 2 2, .add e4 3 3, .sealB] s ∧
+    s.locked = false ∧ step? cfg2 s (.add e1 4 4) = none ∧ s.full.length = 2 :=
+  ⟨_, rfl, by decide, by decide, by decide⟩
 
 /-! ## Stop -/
 
